@@ -85,6 +85,10 @@ def run(check, prog):
     # was computed before): shared with C01
     from . import c01
     c01.f5_state(check, prog)
+    # MieLens == Lens(Mie) also for absorbing spheres: the analytic side's Mie
+    # coefficients and the index convention they are evaluated in (shared with C02)
+    from . import c02
+    c02.albl(check, prog, canon)
 
 
 def numexpr_agreement(check, prog, canon):
